@@ -132,6 +132,33 @@ type world struct {
 	offs  []time.Duration
 	pol   pol
 	glue  *control.VerifGlue
+	// foreign: a node that is NOT a member of the group (another group's node / a previous generation's node, as
+	// control/udp.go's failover paths can pass it), used only as the `excluded` argument of selections.
+	foreign *dialer.Dialer
+}
+
+// values of selObs.excl beyond the member indices 0..n-1
+const (
+	exclNone    = -1
+	exclForeign = 100 // a node that is not a member of the group
+)
+
+func (w *world) exclList() []int {
+	out := []int{exclNone}
+	for i := 0; i < w.c.n; i++ {
+		out = append(out, i)
+	}
+	return append(out, exclForeign)
+}
+
+func (w *world) exclDialer(excl int) *dialer.Dialer {
+	switch {
+	case excl == exclForeign:
+		return w.foreign
+	case excl >= 0:
+		return w.nodes[excl]
+	}
+	return nil
 }
 
 var (
@@ -157,6 +184,7 @@ func newWorld(c *cfg) *world {
 	w.g = outbound.NewDialerGroup(opt, "g", w.nodes, annos, outbound.DialerSelectionPolicy{Policy: c.initPol.p, FixedIndex: c.initPol.fixed},
 		func(alive bool, nt *dialer.NetworkType, isInit bool) {})
 	w.glue = control.VerifNewGlue(w.g, quietLog)
+	w.foreign = dialer.VerifNewDialer(opt, "foreign", "addr-foreign")
 	return w
 }
 
@@ -223,7 +251,8 @@ type selRes struct {
 }
 
 type selObs struct {
-	typ    int
+	ob     int // index into obsList (the spelling of the requested type); -1 for glue selections
+	typ    int // the health domain the statement/documentation assigns to that spelling
 	strict bool
 	excl   int
 	glue   string   // "" = DialerGroup.SelectWithExclusionResult; else the flow selected through control's chooseProxyDialer
@@ -238,7 +267,27 @@ type snap struct {
 	sel   []selObs
 }
 
-var obsTypes = []int{TCP4, DAT4, DAT6, DNS4}
+// obsSpec: one way a caller can spell the requested network type. alias == nil: the canonical spelling of the health
+// domain (dialer.VerifStdTypes). The aliases are the other legal NetworkType values; which health domain each of them
+// denotes is taken from the documentation of NetworkType (connectivity_check.go: "UDP callers must set DNS explicitly via
+// UdpHealthDomainDns. Unset falls back only to the ordinary data-UDP domain"; "TCP DNS and plain TCP share the same
+// collection"), i.e. for UDP the UdpHealthDomain field decides (unset = data), IsDns is only meaningful for TCP and does
+// not select a different health domain there. "For every group and network type": an alias must be served exactly like
+// the canonical spelling of its domain (same set, same fallback chain).
+type obsSpec struct {
+	name  string
+	typ   int
+	alias *dialer.NetworkType
+}
+
+var obsList = []obsSpec{
+	{"tcp4", TCP4, nil}, {"dat4", DAT4, nil}, {"dat6", DAT6, nil}, {"dns4", DNS4, nil},
+	{"dat4~domain-unset", DAT4, &dialer.NetworkType{L4Proto: consts.L4ProtoStr_UDP, IpVersion: consts.IpVersionStr_4}},
+	{"dat6~domain-unset", DAT6, &dialer.NetworkType{L4Proto: consts.L4ProtoStr_UDP, IpVersion: consts.IpVersionStr_6}},
+	{"dat4~isdns-flag", DAT4, &dialer.NetworkType{L4Proto: consts.L4ProtoStr_UDP, IpVersion: consts.IpVersionStr_4, IsDns: true, UdpHealthDomain: dialer.UdpHealthDomainData}},
+	{"dns4~no-isdns-flag", DNS4, &dialer.NetworkType{L4Proto: consts.L4ProtoStr_UDP, IpVersion: consts.IpVersionStr_4, UdpHealthDomain: dialer.UdpHealthDomainDns}},
+	{"tcp4~isdns-flag", TCP4, &dialer.NetworkType{L4Proto: consts.L4ProtoStr_TCP, IpVersion: consts.IpVersionStr_4, IsDns: true}},
+}
 
 func (w *world) measure(node, t int, p pol) lat {
 	win, mov, pen := w.nodes[node].VerifMeasure(w.types[t])
@@ -269,12 +318,12 @@ func (w *world) measure(node, t int, p pol) lat {
 	return lat{true, m + pen + w.offs[node]}
 }
 
-func (w *world) selectOnce(t int, strict bool, excl int) selRes {
-	var ex *dialer.Dialer
-	if excl >= 0 {
-		ex = w.nodes[excl]
+func (w *world) selectOnce(ob int, strict bool, excl int) selRes {
+	ex := w.exclDialer(excl)
+	nt := *w.types[obsList[ob].typ]
+	if a := obsList[ob].alias; a != nil {
+		nt = *a
 	}
-	nt := *w.types[t]
 	d, _, adm, err := w.g.SelectWithExclusionResult(&nt, strict, ex)
 	r := selRes{node: w.nodeIdx(d), adm: dialer.VerifTypeName(adm)}
 	if err != nil {
@@ -291,10 +340,7 @@ func (w *world) selectOnce(t int, strict bool, excl int) selRes {
 // glueOnce: the same selection performed through the REAL control-plane glue ControlPlane.chooseProxyDialer (first
 // selection for the flow's type, then its alternate-IP-family retry), as udp.go's failover paths call it with Excluded.
 func (w *world) glueOnce(network string, v6, withDomain bool, excl int) selRes {
-	var ex *dialer.Dialer
-	if excl >= 0 {
-		ex = w.nodes[excl]
-	}
+	ex := w.exclDialer(excl)
 	d, adm, err := w.glue.Choose(network, v6, withDomain, ex)
 	r := selRes{node: w.nodeIdx(d), adm: dialer.VerifTypeName(adm)}
 	if err != nil {
@@ -340,14 +386,14 @@ func (w *world) snapshot(lite bool) *snap {
 			s.view[t] = a.VerifView()
 		}
 	}
-	for _, t := range obsTypes {
+	for ob := range obsList {
 		for _, strict := range []bool{true, false} {
-			for excl := -1; excl < w.c.n; excl++ {
-				if lite && (!w.pol.isMin() || !strict || excl >= 0) {
+			for _, excl := range w.exclList() {
+				if lite && (!w.pol.isMin() || !strict || excl != exclNone) {
 					continue
 				}
-				o := selObs{typ: t, strict: strict, excl: excl}
-				w.observe(&o, func() selRes { return w.selectOnce(t, strict, excl) })
+				o := selObs{ob: ob, typ: obsList[ob].typ, strict: strict, excl: excl}
+				w.observe(&o, func() selRes { return w.selectOnce(ob, strict, excl) })
 				s.sel = append(s.sel, o)
 			}
 		}
@@ -373,8 +419,8 @@ func (w *world) snapshot(lite bool) *snap {
 				if withDomain {
 					how = "domain"
 				}
-				for excl := -1; excl < w.c.n; excl++ {
-					o := selObs{typ: t, strict: false, excl: excl, glue: network + "/" + fam + "/" + how}
+				for _, excl := range w.exclList() {
+					o := selObs{ob: -1, typ: t, strict: false, excl: excl, glue: network + "/" + fam + "/" + how}
 					w.observe(&o, func() selRes { return w.glueOnce(network, v6, withDomain, excl) })
 					s.sel = append(s.sel, o)
 				}
@@ -470,7 +516,7 @@ func (j *judge) judgeSelect(s *snap, o *selObs, r selRes) int {
 		if o.glue != "" {
 			return fmt.Sprintf("chooseProxyDialer(flow %s -> %s,excluded=%s) under %s -> %s", o.glue, typeShort[o.typ], nodeName(o.excl), s.pol, r)
 		}
-		return fmt.Sprintf("select(%s,strict=%v,excluded=%s) under %s -> %s", typeShort[o.typ], o.strict, nodeName(o.excl), s.pol, r)
+		return fmt.Sprintf("select(%s,strict=%v,excluded=%s) under %s -> %s", obsList[o.ob].name, o.strict, nodeName(o.excl), s.pol, r)
 	}
 	if s.pol.isFixed() {
 		if r.err != "" || r.node != s.pol.fixed {
@@ -518,6 +564,9 @@ func (j *judge) judgeSelect(s *snap, o *selObs, r selRes) int {
 func nodeName(i int) string {
 	if i < 0 {
 		return "none"
+	}
+	if i == exclForeign {
+		return "foreign(not a member of the group)"
 	}
 	return string(rune('a' + i))
 }
@@ -614,7 +663,7 @@ func (j *judge) judgeState(s *snap) {
 				ld, ok := j.recOf(s, src, d)
 				if ok && ld < lc && lc-ld >= w.c.tol {
 					j.viol("min", fmt.Sprintf("select(%s,strict=%v,excluded=%s) under %s tol=%v -> %s (%v) but alive measured node %s (%v) is better by %v",
-						typeShort[o.typ], o.strict, nodeName(o.excl), s.pol, w.c.tol, nodeName(c), lc, nodeName(d), ld, lc-ld), s.latTable(j, src))
+						o.name(), o.strict, nodeName(o.excl), s.pol, w.c.tol, nodeName(c), lc, nodeName(d), ld, lc-ld), s.latTable(j, src))
 				}
 			}
 		}
@@ -687,14 +736,21 @@ func (j *judge) judgeCache(pre, post *snap, e event) {
 	}
 }
 
-func findSel(s *snap, t int, strict bool, excl int) *selObs {
+func findSel(s *snap, ob int, strict bool, excl int) *selObs {
 	for k := range s.sel {
 		o := &s.sel[k]
-		if o.glue == "" && o.typ == t && o.strict == strict && o.excl == excl {
+		if o.glue == "" && o.ob == ob && o.strict == strict && o.excl == excl {
 			return o
 		}
 	}
 	return nil
+}
+
+func (o *selObs) name() string {
+	if o.ob >= 0 {
+		return obsList[o.ob].name
+	}
+	return "flow " + o.glue + " -> " + typeShort[o.typ]
 }
 
 // judgeStep: the tolerance rule between consecutive states.
@@ -704,8 +760,9 @@ func (j *judge) judgeStep(pre, post *snap, e event) {
 	if !pre.pol.isMin() || !post.pol.isMin() {
 		return
 	}
-	for _, t := range obsTypes {
-		o0, o1 := findSel(pre, t, true, -1), findSel(post, t, true, -1)
+	for ob := range obsList {
+		t := obsList[ob].typ
+		o0, o1 := findSel(pre, ob, true, exclNone), findSel(post, ob, true, exclNone)
 		r0, r1 := o0.out[0], o1.out[0]
 		if r0.node < 0 || r1.node < 0 || r0.node == r1.node {
 			continue
@@ -741,7 +798,7 @@ func (j *judge) judgeStep(pre, post *snap, e event) {
 			continue
 		}
 		j.viol("tolerance", fmt.Sprintf("choice for %s changed %s (%v) -> %s (%v) under %s with tolerance %v: not better by the tolerance, old choice alive and measured",
-			typeShort[t], nodeName(c0), l0, nodeName(c1), l1, post.pol, tol), post.latTable(j, src))
+			obsList[ob].name, nodeName(c0), l0, nodeName(c1), l1, post.pol, tol), post.latTable(j, src))
 	}
 }
 
@@ -808,7 +865,7 @@ func makeScenario(c *cfg) *dialerh.Scenario {
 			if verbose {
 				fmt.Printf("    state: %s\n", res.Key)
 				for _, o := range post.sel {
-					fmt.Printf("    select(%s,strict=%v,excl=%s,glue=%q) = %v\n", typeShort[o.typ], o.strict, nodeName(o.excl), o.glue, o.out)
+					fmt.Printf("    select(%s,strict=%v,excl=%s,glue=%q) = %v\n", o.name(), o.strict, nodeName(o.excl), o.glue, o.out)
 				}
 			}
 			return res
@@ -951,13 +1008,15 @@ func famSizes(thorough bool) sizes {
 func main() {
 	dialerh.Main(&dialerh.Plan{
 		ID: "C15",
-		Rule: "states = distinct FULL dumps (every collection of every node: alive flag, counters, latency window, moving average; recovery back-off levels and pending timers as deadline-minus-now; every AliveDialerSet: aliveEntries order with cached latencies, dialerToIndex, dialerToLatency, cached best; current policy; process-wide failure tracker) reached by BFS over event histories on the real DialerGroup, one history = fresh objects + replay inside ONE vsched.Run on the virtual clock (a scripted probe takes its latency as virtual time inside the real Dialer.check()); transitions = (state,event) executions; in EVERY state all selections SelectWithExclusionResult(type in tcp4,data-udp4,data-udp6,dns-udp4; strict in t,f; excluded in none,each node) AND the same selections through the real control-plane glue ControlPlane.chooseProxyDialer (tcp/udp flows x v4/v6 x dial-by-IP/dial-by-domain x excluded in none,each node; real-mode build of package control) are evaluated — under the random policy once per vector of fastrand.Intn answers (exhaustive odometer) — and judged against the reference from the statement, consecutive states by the tolerance rule; alphabet per scenario family: lat (one domain, probe ok 10/40/100/160ms, probe/traffic/forced fail, traffic ok, policy switches), chain (data-UDP -> DNS-UDP -> TCP), fam (other IP family), tcp46; groups of 1..3 nodes, offset none / +30ms on node a, tolerance 0 / 50ms, every policy as the initial one; distinct_nontrivial = distinct (policy, tolerance, alive matrix, all selection outcomes) observations summed over scenarios",
+		Rule: "states = distinct FULL dumps (every collection of every node: alive flag, counters, latency window, moving average; recovery back-off levels and pending timers as deadline-minus-now; every AliveDialerSet: aliveEntries order with cached latencies, dialerToIndex, dialerToLatency, cached best; current policy; process-wide failure tracker) reached by BFS over event histories on the real DialerGroup, one history = fresh objects + replay inside ONE vsched.Run on the virtual clock (a scripted probe takes its latency as virtual time inside the real Dialer.check()); transitions = (state,event) executions; in EVERY state all selections SelectWithExclusionResult(type in tcp4,data-udp4,data-udp6,dns-udp4 in the canonical spelling PLUS the alias spellings of the same health domains: udp4/udp6 with UdpHealthDomain unset (= data UDP), data-udp4 with the IsDns flag set, dns-udp4 without the IsDns flag, tcp4 with the IsDns flag (TCP-DNS) — an alias is judged exactly like the canonical spelling of the domain the NetworkType documentation assigns to it; strict in t,f; excluded in none,each node,a node that is NOT a member of the group) AND the same selections through the real control-plane glue ControlPlane.chooseProxyDialer (tcp/udp flows x v4/v6 x dial-by-IP/dial-by-domain x excluded in none,each node,a non-member node; real-mode build of package control) are evaluated — under the random policy once per vector of fastrand.Intn answers (exhaustive odometer) — and judged against the reference from the statement, consecutive states by the tolerance rule; alphabet per scenario family: lat (one domain, probe ok 10/40/100/160ms, probe/traffic/forced fail, traffic ok, policy switches), chain (data-UDP -> DNS-UDP -> TCP), fam (other IP family), tcp46; groups of 1..3 nodes, offset none / +30ms on node a, tolerance 0 / 50ms, every policy as the initial one; distinct_nontrivial = distinct (policy, tolerance, alive matrix, all selection outcomes) observations summed over scenarios",
 		Scenarios:   scenarios,
-		BudgetQuick: 45 * time.Second, BudgetThorough: 17 * time.Minute,
+		BudgetQuick: 75 * time.Second, BudgetThorough: 17 * time.Minute,
 		Assumptions: []string{
 			"'recorded alive' is the node's own flag Dialer.MustGetAlive(type); the agreement of every AliveDialerSet with it is checked in every state as a structural invariant",
 			"a node's latency measurement is read from the node (last sample / mean of the window / moving average as the policy names it) plus its configured offset plus the documented recovery back-off penalty in force when the group recorded it; the group's cached value must equal that after every new sample and after every policy switch and must not be touched by events on other nodes",
 			"the statement does not order the other IP family against the DNS-UDP/TCP fallbacks of data UDP: both interleavings are accepted; DNS-UDP before TCP and the requested type first are required",
+			"which health domain a NetworkType value denotes is taken from the documentation of NetworkType, not from Index(): TCP -> tcp (IsDns irrelevant: TCP-DNS shares the TCP domain); UDP -> the UdpHealthDomain field decides, unset = data UDP, the IsDns flag does not decide for UDP; every spelling of a domain must be served like the canonical one (same alive set, same fallback chain)",
+			"an excluded node that is not a member of the group excludes nothing: every alive node of the tried type stays a candidate",
 			"fastrand (module cache, cannot be overlaid) is redirected in a build-time copy of the CURRENT alive_dialer_set.go to verifx/fastrandx whose Intn is scripted: every outcome vector is executed; outside selections the outcome is 0",
 			"cachedTimeNano is kept equal to the virtual now by the harness before every event; package dialer's init goroutine (real 1s ticker) cannot be stopped: a history during which it wrote the variable is detected and replayed",
 			"world construction and the read-only observation of the reached state run outside the scheduler (the shims are the real primitives there); every event, i.e. everything that reads the clock, runs inside the single vsched.Run of its history",
